@@ -1,0 +1,80 @@
+//go:build verif
+
+package analyzer
+
+// Contracts for the verification machinery under /verif (comment-only file;
+// compiled only with -tags verif, contains no executable code).
+
+//@ func prepareGocritic
+//@   prop C19
+//@   requires @registry-wf forall k int :: (0 <= k && k < len(registeredCheckers)) ==> wfInfo(registeredCheckers[k])
+//@   requires @cache-wf globalGocritic != nil ==> (forall m int :: (0 <= m && m < len(globalGocritic.infoList)) ==> globalGocritic.infoList[m] != nil)
+//@   ensures @infos-non-nil result0 != nil ==> (forall m int :: (0 <= m && m < len(result0.infoList)) ==> result0.infoList[m] != nil)
+//@   ensures @error-means-no-value result1 != nil ==> result0 == nil
+//@   ensures @nil-nil-only-when-latched (result0 == nil && result1 == nil) ==> (!DisableCache && globalInitErrorReported)
+
+//@ func newGocritic
+//@   prop C19
+//@   requires @registry-wf forall k int :: (0 <= k && k < len(registeredCheckers)) ==> wfInfo(registeredCheckers[k])
+//@   ensures @infos-non-nil result0 != nil ==> (forall m int :: (0 <= m && m < len(result0.infoList)) ==> result0.infoList[m] != nil)
+//@   nosafety the registry invariants (non-nil infos and params, one flag cell per parameter) are established by init and not restated here
+//@   ensures @value-xor-error (result1 == nil) <==> (result0 != nil)
+
+//@ func (*gocritic).createCheckers
+//@   prop C19
+//@   requires critic != nil
+//@   assigns nothing
+//@   requires @infos-non-nil forall k int :: (0 <= k && k < len(critic.infoList)) ==> critic.infoList[k] != nil
+//@   ensures @no-partial-set result1 != nil ==> len(result0) == 0
+
+//@ func runAnalyzer
+//@   prop C19
+//@   requires pass != nil
+//@   requires @registry-wf forall k int :: (0 <= k && k < len(registeredCheckers)) ==> wfInfo(registeredCheckers[k])
+//@   requires @cache-wf globalGocritic != nil ==> (forall m int :: (0 <= m && m < len(globalGocritic.infoList)) ==> globalGocritic.infoList[m] != nil)
+
+// ---- C06: checker selection in the analyzer front-end
+
+//@ func filterCheckersList$2
+//@   prop C06
+//@   fresh
+//@   assigns nothing
+//@   ensures @split-trim len(result) == splitLen(s, ",") && (forall k int :: (0 <= k && k < len(result)) ==> result[k] == keyAt(s, k))
+//@   loop 1 invariant @len-fixed len(parts) == splitLen(s, ",")
+//@   loop 1 invariant @done-prefix forall k int :: (0 <= k && k < $i) ==> parts[k] == keyAt(s, k)
+//@   loop 1 invariant @todo-suffix forall k int :: ($i <= k && k < len(parts)) ==> parts[k] == splitAt(s, ",", k)
+
+//@ func filterCheckersList$1
+//@   prop C06
+//@   requires byName != nil && byTag != nil && byName != byTag
+//@   assigns mapof(byName), mapof(byTag)
+//@   ensures @names forall x string :: byName[x] <==> (old(byName[x]) || (exists k int :: 0 <= k && k < len(keys) && keys[k] == x && !hasPrefix(x, "#")))
+//@   ensures @tags forall t string :: byTag[t] <==> (old(byTag[t]) || (exists k int :: 0 <= k && k < len(keys) && keys[k] == "#" ++ t))
+//@   loop 1 invariant @names-prefix forall x string :: byName[x] <==> (old(byName[x]) || (exists k int :: 0 <= k && k < $i && keys[k] == x && !hasPrefix(x, "#")))
+//@   loop 1 invariant @tags-prefix forall t string :: byTag[t] <==> (old(byTag[t]) || (exists k int :: 0 <= k && k < $i && keys[k] == "#" ++ t))
+
+//@ func filterCheckersList$3
+//@   prop C06
+//@   pure
+//@   requires info != nil
+//@   ensures @enabled-by-tag result <==> (exists j int :: 0 <= j && j < len(info.Tags) && enabledTags[info.Tags[j]])
+//@   loop 1 invariant @none-so-far forall j int :: (0 <= j && j < $i) ==> !enabledTags[info.Tags[j]]
+
+//@ func filterCheckersList$4
+//@   prop C06
+//@   pure
+//@   requires wfInfo(info)
+//@   ensures @disabled-by-tag (result != "") <==> (exists j int :: 0 <= j && j < len(info.Tags) && disabledTags[info.Tags[j]])
+//@   loop 1 invariant @none-so-far forall j int :: (0 <= j && j < $i) ==> !disabledTags[info.Tags[j]]
+
+//@ spec effDisable(dis string, all bool) string = ite(dis == "<default>", ite(all, "", "#experimental,#opinionated,#performance"), dis)
+
+//@ func filterCheckersList
+//@   prop C06
+//@   assigns nothing
+//@   requires @registry-wf forall k int :: (0 <= k && k < len(infoList)) ==> wfInfo(infoList[k])
+//@   ensures @selected-only forall m int :: (0 <= m && m < len(result)) ==> (exists k int :: 0 <= k && k < len(infoList) && infoList[k] == result[m] && selectedA(infoList[k], flagEnableAll, flagEnable, effDisable(flagDisable, flagEnableAll)))
+//@   ensures @all-selected forall k int :: (0 <= k && k < len(infoList) && selectedA(infoList[k], flagEnableAll, flagEnable, effDisable(flagDisable, flagEnableAll))) ==> (exists m int :: 0 <= m && m < len(result) && result[m] == infoList[k])
+//@   loop 1 invariant @fresh-result filtered == nil || fresh(filtered)
+//@   loop 1 invariant @selected-only-prefix forall m int :: (0 <= m && m < len(filtered)) ==> (exists k int :: 0 <= k && k < $i && infoList[k] == filtered[m] && selectedA(infoList[k], flagEnableAll, flagEnable, effDisable(flagDisable, flagEnableAll)))
+//@   loop 1 invariant @all-selected-prefix forall k int :: (0 <= k && k < $i && selectedA(infoList[k], flagEnableAll, flagEnable, effDisable(flagDisable, flagEnableAll))) ==> (exists m int :: 0 <= m && m < len(filtered) && filtered[m] == infoList[k])
